@@ -88,7 +88,9 @@ def cmd_run(names, tier, also):
         meta = json.load(open(os.path.join(d, "meta.json")))
         wt = worktree()
         try:
-            subprocess.check_call(["git", "-C", wt, "apply", os.path.join(d, "patch.diff")])
+            if subprocess.call(["git", "-C", wt, "apply", os.path.join(d, "patch.diff")]) != 0:
+                print(name, "PATCH DOES NOT APPLY to the current HEAD")
+                continue
             res = meta.setdefault("checks", {})
             for c in [meta["property"]] + also:
                 r = subprocess.run([os.path.join(VERIF, "check"), c, "--tier", tier], capture_output=True, text=True, env=dict(ENV, VERIF_REPO=wt))
@@ -98,7 +100,6 @@ def cmd_run(names, tier, also):
             json.dump(meta, open(os.path.join(d, "meta.json"), "w"), indent=1)
         finally:
             drop(wt)
-    shutil.rmtree(os.path.join(VERIF, "replays_scratch"), ignore_errors=True)
     write_results()
 
 
